@@ -1,6 +1,7 @@
 import MidnightZK.Model.Common
 import MidnightZK.Model.C08.PublicInput
 import MidnightZK.Model.C08.Expose
+import MidnightZK.Model.C08.Verify
 /-! Line-protocol handler of property C08. -/
 namespace MidnightZK.C08.Driver
 open MidnightZK MidnightZK.C08
@@ -126,6 +127,20 @@ def answerCells (positions : List Nat) (plainCells comCells plain com : List Nat
   let rej := rejectedEditsAt q c.binds plain pp + rejectedEditsAt q c.comBinds com pc
   s!"plain={fmtBinds c.binds} com={fmtBinds c.comBinds} sat={fmtBool sat} rej={rej}/{positions.length}"
 
+
+/-- `vfy <ch|h> <honest> <v> <steps…>`: the key is set up for `steps`; `v` is the raw vector handed to
+the verifier. `coop` = the proof was generated by a prover running the protocol on `v` itself,
+`honest` = the proof was generated on `honest` (= `format_instance` of the exposed values). Each
+triple is `verify/batch_verify/PLONK verifier without the zk_stdlib length check`. -/
+def answerVfy (coop : Bool) (honest v : List Nat) (steps : List (Path × Val)) : String :=
+  match exposeAll {} steps, setupVk steps, formatInstance steps with
+  | some c, some vk, some (plain, _) =>
+    let tri (proved : List Nat) : String :=
+      let pl := (absorbInstance proved == absorbInstance v) && plonkAccepts c.binds v
+      s!"{(verifyVerdict vk c.binds proved v).str}/{(batchVerdict vk c.binds proved v).str}/{fmtBool pl}"
+    s!"nb={vk.nbPublicInputs} fmt={fmtBool (plain == honest)} coop={if coop then tri v else "-"} honest={tri honest}"
+  | _, _, _ => "panic"
+
 def answer (line : String) : String :=
   match words line with
   | ["mod", name] =>
@@ -152,6 +167,18 @@ def answer (line : String) : String :=
     match n.toNat? with
     | some n => answerProof n
     | none => "bad-op"
+  | "vfy" :: mode :: honest :: v :: ws =>
+    match parseNatList? honest, parseNatList? v, parseSteps ws with
+    | some honest, some v, some steps =>
+      if mode = "ch" then answerVfy true honest v steps
+      else if mode = "h" then answerVfy false honest v steps
+      else "bad-op"
+    | _, _, _ => "bad-op"
+  | ["bigguard", a, d] =>
+    match a.toNat?, d.toNat? with
+    | some a, some d =>
+      if bigExposeGuard Gen.bigLog2Base (assignBounds Gen.bigLog2Base a) d then "ok" else "error"
+    | _, _ => "bad-op"
   | "nbpi" :: ws =>
     match parseSteps ws with
     | some steps => answerNbpi steps
